@@ -324,7 +324,7 @@ def signature(status, detail):
 
 def run(ctx):
     quick = ctx.tier == "quick"
-    worlds_ = ["w1", "w2"] if quick else ["w1", "w2", "w3", "w4", "w5", "w6", "w7", "w8", "w9"]
+    worlds_ = ["w1", "w2", "w3"] if quick else ["w1", "w2", "w3", "w4", "w5", "w6", "w7", "w8", "w9"]
     if os.environ.get("VERIF_C07_WORLDS"):
         worlds_ = os.environ["VERIF_C07_WORLDS"].split(",")      # development aid: restrict the worlds
     total = 0
@@ -345,6 +345,8 @@ def run(ctx):
         wid = 0
         for i in range(1, n + 1):
             for variant in ("before", "after"):
+                if quick and wname == "w3" and not (variant == "after" and phase_of("x:" + pts[i - 1][1]) in ("merge", "process-or-merge", "process")):
+                    continue        # quick tier: the --keep_tmp world only in the phases where keeping intermediate files matters
                 jobs.append((wname, [(i, variant)], None, ctx.scratch, wid, t0, chroms))
                 wid += 1
         if not quick and wname == "w2":
